@@ -6,6 +6,7 @@ package main
 
 import (
 	"fmt"
+	"strings"
 
 	. "verifharness/internal/core"
 )
@@ -344,6 +345,57 @@ func c01Attacks() []attack {
 			x.replaceSlot(x.cand(ev))
 			x.stripOuter()
 		}},
+		{"attacker-signed-evil-keyinfo-attacker-then-idp-cert", func(x *c01x) {
+			ev := x.evil("")
+			s := SignInto(ev, 9)
+			s.SetKeyInfo(kiCert, 9, 0, 1)
+			x.replaceSlot(x.cand(ev))
+			x.stripOuter()
+		}},
+		{"attacker-signed-evil-keyinfo-idp-then-attacker-cert", func(x *c01x) {
+			ev := x.evil("")
+			s := SignInto(ev, 9)
+			s.SetKeyInfo(kiCert, 0, 9)
+			x.replaceSlot(x.cand(ev))
+			x.stripOuter()
+		}},
+		{"keyinfo-extra-certificates", func(x *c01x) {
+			// only the outermost signature: an inner Signature's bytes are covered by the outer digest,
+			// and the abstract tree does not record certificates after the first
+			f := func(s *Node) { s.SetKeyInfo(kiCert, s.KICert, 9, 2) }
+			switch {
+			case x.ar != nil && firstSig(x.ar) != nil:
+				f(firstSig(x.ar))
+			case firstSig(x.resp) != nil:
+				f(firstSig(x.resp))
+			case firstSig(x.a) != nil:
+				b := x.a.Clone()
+				f(firstSig(b))
+				x.replaceSlot(x.cand(b))
+			}
+		}},
+		{"evil-response-in-soap-header", func(x *c01x) {
+			if x.ar == nil {
+				return
+			}
+			rs, _ := validSpecs(x.cfg, x.now, x.id+"-hdr")
+			x.root.InsertAt(0, E("soap", "Header", nil, buildResponse(rs, x.evil("-hdr"))))
+		}},
+		{"evil-response-before-artifact-response", func(x *c01x) {
+			if x.ar == nil {
+				return
+			}
+			rs, _ := validSpecs(x.cfg, x.now, x.id+"-pre")
+			body := x.root.Child("soap", "Body")
+			body.InsertAt(0, buildResponse(rs, x.evil("-pre")))
+		}},
+		{"evil-response-sibling-inside-artifact-response", func(x *c01x) {
+			if x.ar == nil {
+				return
+			}
+			rs, _ := validSpecs(x.cfg, x.now, x.id+"-sib")
+			x.ar.InsertAt(0, E("x", "Extensions", nil, buildResponse(rs, x.evil("-sib"))))
+		}},
 		{"attacker-signed-response", func(x *c01x) {
 			x.stripOuter()
 			x.replaceSlot(x.cand(x.evil("")))
@@ -458,14 +510,14 @@ func runC01(c *Ctx) {
 	}
 	for _, lay := range artLayouts {
 		for i, at := range attacks {
-			if !c.Thorough() && i%3 != n%3 && at.name != "none" {
+			if !c.Thorough() && i%3 != n%3 && at.name != "none" && !strings.HasPrefix(at.name, "evil-response-") {
 				continue
 			}
 			run(cfg, lay, at, 0, "meta-1-signing")
 		}
 	}
 	// trust configurations x who signed x key-related attacks
-	keyAttacks := []string{"none", "keyinfo-removed", "keyinfo-keyvalue-only", "keyinfo-untrusted-cert", "keyinfo-other-idp-cert", "keyinfo-garbage", "attacker-signed-evil-claims-idp-cert", "foreign-ns-signature-sibling"}
+	keyAttacks := []string{"none", "attacker-signed-evil-keyinfo-attacker-then-idp-cert", "attacker-signed-evil-keyinfo-idp-then-attacker-cert", "keyinfo-extra-certificates", "keyinfo-removed", "keyinfo-keyvalue-only", "keyinfo-untrusted-cert", "keyinfo-other-idp-cert", "keyinfo-garbage", "attacker-signed-evil-claims-idp-cert", "foreign-ns-signature-sibling"}
 	for _, tr := range c01Trusts() {
 		cfg := defaultCfg()
 		tr.set(&cfg)
@@ -486,6 +538,20 @@ func runC01(c *Ctx) {
 	}
 	// documents the parser or the round-trip validator must refuse outright
 	gb := c.Group("c01raw", spImports, caseType, "check_c01")
+	{ // a genuinely signed response made unacceptable to the round-trip validator only (empty CDATA section)
+		x := buildLayout(cfg, now, layout{signResp: true}, "cdata", 0)
+		raw := strings.Replace(x.root.Render(), "</saml:NameID>", "<![CDATA[]]></saml:NameID>", 1)
+		c.Count("attack/raw-bytes")
+		addRun(c, gb, &Run{Cfg: cfg, IDs: []string{"req-1"}, Now: now, Cur: cfg.AcsURL, DocKind: 1, Bytes: []byte(raw)}, map[string]string{"attack": "raw-bytes", "raw": "empty-cdata-in-signed-response"}, false)
+		for st := 2; st <= 2; st++ {
+			for k := 0; k < 2; k++ {
+				y := buildLayout(cfg, now, layout{signAssert: true, enc: true}, fmt.Sprintf("cdata%d", k), 0)
+				y.replaceSlot(Enc(y.a, 2))
+				c.Count("attack/encrypted-garbage-plaintext")
+				addRun(c, gb, &Run{Cfg: cfg, IDs: []string{"req-1"}, Now: now, Cur: cfg.AcsURL, Doc: y.root}, map[string]string{"attack": "encrypted-roundtrip-unsafe-plaintext"}, false)
+			}
+		}
+	}
 	for i, raw := range []string{"", "<!-- only a comment -->", "<samlp:Response", "not xml at all", "<a><b></a></b>",
 		`<samlp:Response xmlns:samlp="` + nsP + `"><x:y xmlns:x="urn:x"/></samlp:Response><trailing/>`} {
 		kind := 1
